@@ -486,6 +486,21 @@ impl DBM {
         tower_id: TowerId,
         locator: Locator,
     ) -> Result<(), SqliteError> {
+        // Nothing to delete if the appointment is not pending for this tower (e.g. the tower was abandoned, and registered again, while
+        // the appointment was being sent to it). The single reference counted below would be some other tower's.
+        let is_pending = self
+            .connection
+            .prepare("SELECT COUNT(*) FROM pending_appointments WHERE locator=?1 AND tower_id=?2")
+            .unwrap()
+            .query_row(params![locator.to_vec(), tower_id.to_vec()], |row| {
+                row.get::<_, u32>(0)
+            })
+            .unwrap()
+            > 0;
+        if !is_pending {
+            return Ok(());
+        }
+
         // We will delete data from pending_appointments or from appointments depending on whether the later has a single reference
         // to it or not. If that's the case, deleting the entry from appointments will trigger a cascade deletion of the entry in pending.
         // If there are other references, this will be deleted when removing the last one.
